@@ -37,6 +37,13 @@ BODIES = [
     {"fields": lambda: {"a": attr.ib()}, "text": 7, "kw": {"hash": True}, "hashed": True},
     {"fields": lambda: {"a": attr.ib(repr=False)}, "text": 8},
     {"fields": lambda: {}, "text": 9},
+    # slotted classes with a functools.cached_property: a second generated script (the __getattr__ of
+    # _make_cached_property_getattr, nested inside `def wrapper(_cls)`), whose text depends only on whether the body has
+    # its own __getattr__ (`gtext`); the methods script is that of the same fields without slots
+    {"fields": lambda: {"a": attr.ib()}, "text": 0, "cprop": True, "own": False, "gtext": 0},
+    {"fields": lambda: {"a": attr.ib()}, "text": 0, "cprop": True, "own": True, "gtext": 1},
+    {"fields": lambda: {"a": attr.ib(), "b": attr.ib()}, "text": 1, "cprop": True, "own": False, "gtext": 0},
+    {"fields": lambda: {"a": attr.ib(repr=False)}, "text": 8, "cprop": True, "own": True, "gtext": 1},
 ]
 QUALS = ["C", "C-1", "C-2", "C-1-1", "D"]
 
@@ -46,8 +53,12 @@ def script_id(body, qual):
     return b["text"] * 10 + ((QUALS.index(qual) + 1) if b.get("hashed") else 0)
 
 
-def unique_filename(modname, qual):
-    return f"<attrs generated methods {modname}.{qual}>"
+def gscript_id(body):
+    return BODIES[body].get("gtext")
+
+
+def unique_filename(modname, qual, func="methods"):
+    return f"<attrs generated {func} {modname}.{qual}>"
 
 
 def candidate(base, count):
@@ -104,9 +115,24 @@ def define(modname, d, cfg):
         kw["slots"] = True
     fields = body["fields"]()
     qual = d["qual"]
+    if body.get("cprop"):
+        kw["slots"] = True
     ns = {"__name__": modname, "__h__": {"fields": fields, "kw": kw, "attr": attr, "base": object}}
     if d.get("fails"):
         ns["__h__"]["base"] = _refusing_base(d.get("failHow", "subclass_hook"), bool(kw.get("slots")))
+    if body.get("cprop"):
+        # class statements cannot carry every qualname of the catalogue: build the body as a namespace
+        import functools
+
+        members = dict(fields)
+        members["__module__"] = modname
+        members["cprop_"] = functools.cached_property(lambda self: ("cp", self.a))
+        if body.get("own"):
+            def own_getattr(self, item):
+                raise AttributeError(item)
+            members["__getattr__"] = own_getattr
+        raw = types.new_class(qual, (ns["__h__"]["base"],), {}, lambda n: n.update(members))
+        return attr.s(**kw)(raw)
     if qual.isidentifier() and cfg.get("api", "class") == "class":
         lines = ["@__h__['attr'].s(**__h__['kw'])", f"class {qual}(__h__['base']):"]
         lines += [f"    {n} = __h__['fields'][{n!r}]" for n in fields] or ["    pass"]
@@ -159,11 +185,14 @@ def source_ok(cls):
     """inspect.getsource of every generated method recompiles to the running code; the cache entry under each
     code object's filename is a well-formed permanent entry holding that source (the main script and, on
     slotted classes with cached properties, the script of the generated __getattr__)"""
-    fns = generated_functions(cls, with_getattr=True)
+    fns = reachable_generated_functions(cls)
     if not fns:
         return False
     by_file = {}
     for fn in fns:
+        # code objects nested in a generated function (comprehensions, inner functions) belong to the same file
+        if any(k.co_filename != fn.__code__.co_filename for k in _nested_codes(fn.__code__)):
+            return False
         by_file.setdefault(fn.__code__.co_filename, []).append(fn)
     if len({f for f in by_file if f.startswith("<attrs generated methods")}) > 1:
         return False
@@ -204,27 +233,33 @@ def source_ok(cls):
     return True
 
 
-def _filename_of(cls):
+def _filename_of(cls, func="methods"):
+    if func == "getattr":
+        fn = cls.__dict__.get("__getattr__")
+        if isinstance(fn, types.FunctionType) and fn.__code__.co_filename.startswith("<attrs generated"):
+            return fn.__code__.co_filename
+        return "?"
     fns = generated_functions(cls)
     names = {fn.__code__.co_filename for fn in fns}
     return names.pop() if len(names) == 1 else "?" + "|".join(sorted(names))
 
 
-def _prefix(modname):
-    return f"<attrs generated methods {modname}."
+def _prefix(modname, func="methods"):
+    return f"<attrs generated {func} {modname}."
 
 
-def _snapshot(modname):
-    p = _prefix(modname)
-    return {k: v for k, v in list(linecache.cache.items()) if isinstance(k, str) and k.startswith(p)}
+def _snapshot(modname, func=None):
+    ps = tuple(_prefix(modname, f) for f in ((func,) if func else ("methods", "getattr")))
+    return {k: v for k, v in list(linecache.cache.items()) if isinstance(k, str) and k.startswith(ps)}
 
 
 _REF = {}
 
 
 def reference_texts(modname, case, cfg):
-    """the script attrs generates for each definition, taken from an uncontended definition of the same body
-    (same module and qualname, nothing else cached) before the experiment starts"""
+    """the scripts attrs generates for each definition -- (methods script, __getattr__ script or None) -- taken from
+    an uncontended definition of the same body (same module and qualname, nothing else cached) before the
+    experiment starts"""
     out = []
     for d in case["defs"]:
         hashed = BODIES[d["body"]].get("hashed")
@@ -233,27 +268,30 @@ def reference_texts(modname, case, cfg):
             out.append(_REF[key])
             continue
         _purge_entries(modname)
-        text = None
         try:
-            define(modname, dict(d, fails=False), cfg)     # the script does not depend on the refusing base
+            define(modname, dict(d, fails=False), cfg)     # the scripts do not depend on the refusing base
         except Exception:  # noqa: BLE001
             pass
-        ent = linecache.cache.get(unique_filename(modname, d["qual"]))
-        text = "".join(ent[2]) if ent else None
+        texts = []
+        for func in ("methods", "getattr"):
+            ent = linecache.cache.get(unique_filename(modname, d["qual"], func))
+            texts.append("".join(ent[2]) if ent else None)
         _purge_entries(modname)
         if not hashed:
-            _REF[key] = text
-        out.append(text)
+            _REF[key] = tuple(texts)
+        out.append(tuple(texts))
     return out
 
 
-def _entries(modname, case, refs):
+def _entries(modname, case, refs, func="methods"):
     out = []
-    ids = {pre_text(p[1][1]): p[1][1] for p in case["pre"]}
+    which = 0 if func == "methods" else 1
+    ids = {pre_text(p[1][1]): p[1][1] for p in case["pre"]} if func == "methods" else {}
     for d, t in zip(case["defs"], refs):
-        if t is not None:
-            ids.setdefault(t, d["script"])
-    for k, ent in sorted(_snapshot(modname).items()):
+        sid = d["script"] if func == "methods" else d.get("gscript")
+        if t[which] is not None and sid is not None:
+            ids.setdefault(t[which], sid)
+    for k, ent in sorted(_snapshot(modname, func).items()):
         try:
             text = "".join(ent[2])
         except Exception:  # noqa: BLE001
@@ -263,11 +301,53 @@ def _entries(modname, case, refs):
 
 
 def _own_text_cached(cls, ref):
+    """the entries the class's code objects point at hold the class's OWN scripts"""
     fns = generated_functions(cls)
-    if not fns or ref is None:
+    if not fns or ref[0] is None:
         return False
     ent = linecache.cache.get(fns[0].__code__.co_filename)
-    return bool(ent) and "".join(ent[2]) == ref
+    if not (ent and "".join(ent[2]) == ref[0]):
+        return False
+    ga = cls.__dict__.get("__getattr__")
+    if isinstance(ga, types.FunctionType) and ga.__code__.co_filename.startswith("<attrs generated"):
+        ent = linecache.cache.get(ga.__code__.co_filename)
+        return bool(ent) and ref[1] is not None and "".join(ent[2]) == ref[1]
+    return ref[1] is None
+
+
+def _nested_codes(co):
+    for k in co.co_consts:
+        if isinstance(k, types.CodeType):
+            yield k
+            yield from _nested_codes(k)
+
+
+def reachable_generated_functions(cls):
+    """every attrs-generated function object reachable from the class: the methods in its __dict__ (also behind
+    classmethod/staticmethod/property), and functions in their closures and defaults"""
+    seen, out, todo = set(), [], []
+    for v in cls.__dict__.values():
+        if isinstance(v, (classmethod, staticmethod)):
+            v = v.__func__
+        if isinstance(v, property):
+            todo.extend(f for f in (v.fget, v.fset, v.fdel) if f is not None)
+        else:
+            todo.append(v)
+    while todo:
+        f = todo.pop()
+        if not isinstance(f, types.FunctionType) or id(f) in seen:
+            continue
+        seen.add(id(f))
+        if f.__code__.co_filename.startswith("<attrs generated"):
+            out.append(f)
+            for cell in f.__closure__ or ():
+                try:
+                    todo.append(cell.cell_contents)
+                except ValueError:
+                    pass
+            todo.extend(f.__defaults__ or ())
+            todo.extend((f.__kwdefaults__ or {}).values())
+    return out
 
 
 def _seed(modname, case):
@@ -292,6 +372,12 @@ REFUSED = object()     # stands for a definition that was refused after code gen
 
 def _files(classes):
     return [(_filename_of(c) if isinstance(c, type) else "!") for c in classes]
+
+
+def _gfiles(case, classes):
+    """filename of the generated __getattr__ of every definition that has a second script"""
+    return [(_filename_of(c, "getattr") if isinstance(c, type) else "!")
+            for d, c in zip(case["defs"], classes) if d.get("gscript") is not None]
 
 
 def _source_flags(case, classes, refs):
@@ -327,7 +413,8 @@ def observe_hist(case):
             after = _snapshot(modname)
             stable.append(all(k in after and after[k] == v for k, v in before.items()))
         return {"files": _files(classes), "entries": _entries(modname, case, refs),
-                "sourceOk": _source_flags(case, classes, refs), "stable": stable, "realised": True}
+                "sourceOk": _source_flags(case, classes, refs), "stable": stable, "realised": True,
+                "gfiles": _gfiles(case, classes), "gentries": _entries(modname, case, refs, "getattr")}
     finally:
         _purge(modname)
 
@@ -453,7 +540,8 @@ def observe_conc(case):
         keep = all(k in after and after[k] == v for k, v in before.items())
         return {"files": _files(classes), "entries": _entries(modname, case, refs),
                 "sourceOk": _source_flags(case, classes, refs),
-                "stable": [keep] * n, "realised": not ctl.aborted}
+                "stable": [keep] * n, "realised": not ctl.aborted,
+                "gfiles": _gfiles(case, classes), "gentries": _entries(modname, case, refs, "getattr")}
     finally:
         linecache.cache = original
         _purge(modname)
